@@ -101,6 +101,15 @@ Theorem C17_nested_list_take : forall b n,
 Proof. exact nested_list_take. Qed.
 Print Assumptions C17_nested_list_take.
 
+(* a body with a failing await or a raise: list_of_generator raises exactly the first failure (the
+   Values before it are lost with the exception); e <> StopIteration because a body cannot raise
+   StopIteration (PEP 479) *)
+Theorem C17_list_first_failure : forall s e,
+  wf s -> pending s = false -> first_failure (rest s) = Some e -> e <> E_STOPITER ->
+  snd (list_of_generator s) = LErr e.
+Proof. exact list_fails. Qed.
+Print Assumptions C17_list_first_failure.
+
 (* the hypotheses above hold in every state any op list can reach from any body *)
 Theorem C17_reachable_wf : forall b ops, wf (fst (fst (run (init b, HNone) ops))).
 Proof. exact reachable_wf. Qed.
